@@ -27,9 +27,9 @@ func TestVerif(t *testing.T) {
 		ID:    "C15",
 		Level: "exploration",
 		Rule: "(A) for Repository.Tags, Registry.Repositories and Repository.Referrers (API): every item list of length 0..5 x every value of last (none, each item, a non-member) x every split of the remaining items into <= 4 pages (empty pages included) " +
-			"x client page size {0,1,2,7} x Link form {absolute, absolute path, absolute path with extra parameters and spaces, an opaque cursor instead of last, query-only reference, relative-path reference ./<last segment>} x (when a page is empty) that page written with or without its list member x callback failing at page {never,0,1,2} x (referrers) artifact-type filter {none, applied by the server via header, via annotation, not applied}; " +
+			"x client page size {0,1,2,7} x Link form {absolute, absolute path, absolute path with extra parameters and spaces, an opaque cursor instead of last, query-only reference, relative-path reference ./<last segment>; with the default page size also rel=next, rel = \"next\", REL=\"next\", and another parameter before rel} x (when a page is empty) that page written with or without its list member x callback failing at page {never,0,1,2} x (referrers) artifact-type filter {none, applied by the server via header, via annotation, not applied}; " +
 			"the scripted registry double serves exactly those pages and checks every follow-up request against the Link it issued. (B) response documents of size limit-1, limit, limit+1 for small MaxMetadataBytes, padded by whitespace inside the document, after it, or by a long item; a counting body measures the bytes consumed. " +
-			"(C) OCI layout Tags (read-write and read-only store) for every subset of 4 tag names x every last, each listing preceded by one whose callback scribbles over the slice it was handed. (D) Referrers through the tag schema with every filter; and with a chunked GET answer that goes on for 100 KiB after the announced index (no more than MaxMetadataBytes read). " +
+			"(C) OCI layout Tags (read-write and read-only store) for every subset of 4 tag names x every last, each listing preceded by one whose callback scribbles over the slice it was handed. (D) Referrers through the tag schema with every filter; and with a chunked GET answer that goes on for 100 KiB after the announced index (no more than MaxMetadataBytes read); and with an index larger than MaxMetadataBytes whose length is declared x Docker-Content-Digest header {always, never, GET only} x limit {len-1, len/2}. " +
 			"Oracle: concatenated callback arguments = the model list (for referrers also artifactType and annotations of every descriptor, which differ from entry to entry); a slice handed to the callback still holds the same items after the listing; stops at the first missing Link or callback error (returned); bytes consumed <= limit; oversize document => error. non-trivial = distinct case with >= 2 pages or a non-empty last",
 		Assumptions: []string{"a 'document' is the JSON value; trailing whitespace after a value that fits the limit is not part of it"},
 		Jobs:        jobs,
@@ -118,6 +118,14 @@ func (p *pager) Do(req *http.Request) (*http.Response, error) {
 			seg := req.URL.Path[strings.LastIndex(req.URL.Path, "/")+1:]
 			// written with "./" because a first segment containing ':' (a digest) would read as a scheme
 			h.Set("Link", "<./"+seg+"?"+nq.Encode()+`>; rel="next"`)
+		case 6: // RFC 8288: the relation type may be a token
+			h.Set("Link", "<"+req.URL.Path+"?"+nq.Encode()+`>; rel=next`)
+		case 7: // optional white space around "="
+			h.Set("Link", "<"+req.URL.Path+"?"+nq.Encode()+`>; rel = "next"`)
+		case 8: // parameter names are case-insensitive
+			h.Set("Link", "<"+req.URL.Path+"?"+nq.Encode()+`>; REL="next"`)
+		case 9: // another parameter before rel
+			h.Set("Link", "<"+req.URL.Path+"?"+nq.Encode()+`>; title="more"; rel="next"`)
 		default:
 			h.Set("Link", "<"+req.URL.Path+"?"+nq.Encode()+`>;   rel="next"; title="x>y"`)
 		}
@@ -236,7 +244,10 @@ func paging(c *driver.Ctx, tg string, n int) {
 			}
 			for _, sp := range splits(len(served), 4) {
 				for _, psize := range []int{0, 1, 2, 7} {
-					for lf := 0; lf < 6; lf++ {
+					for lf := 0; lf < 10; lf++ {
+						if lf >= 6 && psize != 0 {
+							continue // other legal spellings of rel="next": with the default page size only
+						}
 						for _, failAt := range []int{-1, 0, 1, 2} {
 							one(c, tg, served, want, last, filter, sp, psize, lf, failAt)
 						}
@@ -672,6 +683,50 @@ func tagSchema(c *driver.Ctx) {
 			if err == nil && len(got) != n {
 				c.AddViolation(driver.Violation{Tier: c.Tier, Job: c.Job, Scenario: "tagschema", Sig: "referrers (tag schema): a truncated or altered result was delivered without error", Detail: detail})
 				return
+			}
+		}
+	}
+	// the referrers index is larger than MaxMetadataBytes and its length is declared; the registry sends the
+	// Docker-Content-Digest header always / never / on GET only (without it the client hashes the body itself)
+	for n := 1; n <= 3; n++ {
+		for dh := 0; dh <= 2; dh++ {
+			for _, lim := range []int{-1, 2} { // limit = len-1, len/2 (both above the size of the registry's error documents, which are read under a limit of their own)
+				g := NewRegistry("reg.example", Profile{DigestHeader: dh})
+				repo, _ := remote.NewRepository("reg.example/ns/app")
+				repo.Client = g
+				subject := ocispec.Descriptor{MediaType: ocispec.MediaTypeImageManifest, Digest: digest.FromString("subject"), Size: 7}
+				idx := ocispec.Index{MediaType: ocispec.MediaTypeImageIndex, Manifests: []ocispec.Descriptor{}}
+				idx.SchemaVersion = 2
+				for _, it := range items(n) {
+					idx.Manifests = append(idx.Manifests, refDesc(it))
+				}
+				b, _ := json.Marshal(idx)
+				dg := digest.FromBytes(b)
+				g.Repo("ns/app").PutManifest(dg, b, ocispec.MediaTypeImageIndex)
+				g.Repo("ns/app").Tags["sha256-"+subject.Digest.Encoded()] = dg
+				limit := int64(len(b)) - 1
+				if lim == 2 {
+					limit = int64(len(b)) / 2
+				}
+				repo.MaxMetadataBytes = limit
+				var got []string
+				err := repo.Referrers(context.Background(), subject, "", func(r []ocispec.Descriptor) error {
+					for _, d := range r {
+						got = append(got, d.Digest.String())
+					}
+					return nil
+				})
+				c.Evals++
+				c.Nontriv(driver.Hash("tagschema-oversize", fmt.Sprint(n, dh, lim)))
+				detail := fmt.Sprintf("index of %d bytes with its length declared, MaxMetadataBytes=%d, Docker-Content-Digest header mode %d (0 always, 1 never, 2 on GET only): err=%v delivered=%v, largest number of bytes read from one response body: %d", len(b), limit, dh, err, got, g.MaxBodyRead())
+				if g.MaxBodyRead() > limit {
+					c.AddViolation(driver.Violation{Tier: c.Tier, Job: c.Job, Scenario: "tagschema", Sig: "referrers (tag schema): more than MaxMetadataBytes of a metadata response was read", Detail: detail})
+					return
+				}
+				if err == nil {
+					c.AddViolation(driver.Violation{Tier: c.Tier, Job: c.Job, Scenario: "tagschema", Sig: "referrers (tag schema): an index larger than MaxMetadataBytes was delivered without error", Detail: detail})
+					return
+				}
 			}
 		}
 	}
